@@ -121,7 +121,7 @@ pub trait Num:
     + Hypot + Round + Clamp + ClampAssign + MulAdd + MulSub + Signum + IsValidDivisor + PartialCmp + PartialEq
     + core::ops::AddAssign + core::ops::SubAssign + core::ops::MulAssign + core::ops::DivAssign
     + HalfRotation + FullRotation + RealAngle + SignedAngle + UnsignedAngle + AngleEq
-    + HasBoolMask + FromScalar<Scalar = Self> + FromScalarArray<1> + IntoScalarArray<1>
+    + HasBoolMask + FromScalar
     + palette::stimulus::Stimulus
 {
 }
@@ -139,7 +139,7 @@ pub fn abs_le<T: Num>(a: T, b: T, tol: T) -> T::P {
 pub fn in_range<T: Num>(x: T, lo: f64, hi: f64) -> T::P {
     T::p_and(T::p_le(&T::k(lo), &x), T::p_le(&x, &T::k(hi)))
 }
-pub fn all<T: Num>(ps: &[T::P]) -> T::P {
+pub fn conj<T: Num>(ps: &[T::P]) -> T::P {
     let mut r = T::p_true();
     for p in ps { r = T::p_and(r, p.clone()); }
     r
